@@ -57,6 +57,19 @@ class Ctx:
             self.bad(rule, op, inp, msg)
 
 
+def warm(w, s):
+    """history: the set has been queried in every way before (lookup / position caches, if any, are filled)"""
+    it = w.it
+    run_guarded(lambda: it.call_method(s, "__contains__", "a"))
+    run_guarded(lambda: it.get_attr(s, "letters"))
+    run_guarded(lambda: it.get_attr(s, "shape"))
+    for d in list(s.f["dim_list"]):
+        for key in (d.f["letter"], d.f["name"]):
+            run_guarded(lambda: it.call_method(s, "index", key))
+            run_guarded(lambda: it.call_method(s, "__getitem__", key))
+            run_guarded(lambda: it.call_method(s, "size", key))
+
+
 def lookups(cx: Ctx, w: World, r: Obj, expect, op, inp):
     """lookup / membership / index / size / shape agree with the ordered list `expect` (letters)"""
     it = w.it
@@ -131,8 +144,7 @@ def run_pair_ops(cx: Ctx, A, B):
         w = World(cx.prog)
         a, b = w.dimset(A), w.dimset(B)
         for s in (a, b):      # history: operands have been queried before (lookup caches, if any, are warm)
-            run_guarded(lambda: w.it.call_method(s, "__contains__", "a"))
-            run_guarded(lambda: w.it.get_attr(s, "letters"))
+            warm(w, s)
         la, lb = a.f["dim_list"], b.f["dim_list"]
         snaps = w.snap(a, b)
         kind, r = run_guarded(lambda: w.it.call_method(a, op, b))
@@ -177,8 +189,7 @@ def run_unary(cx: Ctx, A):
     for name, args, exp in cases:
         w = World(cx.prog)
         a = w.dimset(A)
-        run_guarded(lambda: w.it.call_method(a, "__contains__", "a"))
-        run_guarded(lambda: w.it.get_attr(a, "letters"))
+        warm(w, a)
         la = a.f["dim_list"]
         kind, r = run_guarded(lambda: w.it.call_method(a, name, *args))
         cx.rep.evaluations += 1
@@ -217,7 +228,7 @@ def run_mutators(cx: Ctx, A):
                 name = label.split("@")[0].split(":")[0]
                 w = World(cx.prog)
                 a = w.dimset(A)
-                run_guarded(lambda: w.it.call_method(a, "__contains__", "a"))
+                warm(w, a)
                 d = w.dim(new, fresh=True) if not clash else w.it.construct(
                     w.Dimension, [], dict(name="other" + new, letter=new, items=w.it.get_attr(w.dim(new), "items")))
                 la = a.f["dim_list"]
@@ -247,13 +258,29 @@ def run_mutators(cx: Ctx, A):
                     if ok:
                         lookups(cx, w, r, exp, name, inp)
                         independent(cx, w, r, a, None, name, inp, la, None)
+    # a list of dimensions whose clash is not the first element: nothing may be added before the refusal
+    if A:
+        fresh = [l for l in alpha if l not in A][:1]
+        for inplace in (False, True):
+            for name in ("expand_by", "extend"):
+                w = World(cx.prog)
+                a = w.dimset(A)
+                warm(w, a)
+                dims = [w.dim(l, fresh=True) for l in fresh] + [w.dim("z", n=3)] + [w.it.construct(w.Dimension, [], dict(name="other" + A[0], letter=A[0], items=w.it.get_attr(w.dim(A[0]), "items")))]
+                snaps = w.snap(a)
+                kind, r = run_guarded(lambda: w.it.call_method(a, name, list(dims), inplace=inplace))
+                cx.rep.evaluations += 1
+                inp = {"op": name, "self": list(A), "added": fresh + ["z", A[0] + " (clash, last)"], "inplace": inplace}
+                cx.ob("C14.clash-rejected", kind == "raise", name, inp, "a list of dimensions containing a clashing one was accepted")
+                ch = w.changed(snaps)
+                cx.ob("C14.rejected-call-changes-nothing", not ch, name, inp, "; ".join(ch))
     for i, old in enumerate(A):
         for key in (old, old * 2):
             for inplace in (False, True):
                 for name in ("drop", "remove"):
                     w = World(cx.prog)
                     a = w.dimset(A)
-                    run_guarded(lambda: w.it.call_method(a, "__contains__", "a"))
+                    warm(w, a)
                     la = a.f["dim_list"]
                     snaps = w.snap(a)
                     kind, r = run_guarded(lambda: w.it.call_method(a, name, key, inplace=inplace))
